@@ -123,6 +123,14 @@ class PyModule:
     def loc(self, node):
         return '%s:%d' % (self.rel, getattr(node, 'lineno', 0))
 
+    def table_elems(self, name):
+        """IR element expressions of a module-level constant tuple / list (for unrolling `for x in TABLE`), else None"""
+        v = self.consts.get(name)
+        if isinstance(v, (ast.Tuple, ast.List)) and len(v.elts) <= 64:
+            e = PyLowerer(self).expr(v)
+            return list(e.a[1])
+        return None
+
 
 class PyLowerer:
     def __init__(self, mod, func=None):
